@@ -2,9 +2,9 @@ package props
 
 import (
 	"fmt"
-	"strings"
 	"go/token"
 	"go/types"
+	"strings"
 
 	"golang.org/x/tools/go/ssa"
 
@@ -32,6 +32,7 @@ func checkC05(c *chk.Ctx) {
 		"R05a the coordinator stores the incremented term (UpdateShardMetadata) on every path before any NewTerm RPC; the term is only incremented in the election function",
 		"R05b the result of the metadata Store retry is not discarded (open finding F14: it is)",
 		"R05c nodes persist and flush the term before adopting / answering it; a failed UpdateTerm never continues on the success path",
+		"R05i a compare-and-set of the cluster status writes a status computed from the very snapshot whose version it presents (a retry recomputes it): a concurrent election's term is never overwritten by a stale copy",
 		"R05e the leader selection loop implements the (term, offset) maximum decision table exhaustively (9 ordering cases); leader is a candidate; followers = responses - leader",
 		"R05f only ensemble members enter the response map of the fencing quorum",
 		"R05g/R05h the fencing majority is a strict majority of exactly the set that is fenced and counted",
@@ -49,6 +50,7 @@ func checkC05(c *chk.Ctx) {
 	h.Rule("R05g", "K11", "fencing majority arithmetic (shared with R01c)", 1)
 	ruleMajority(h, "R05g")
 	ruleR05h(h)
+	ruleStatusSwapFresh(h, "R05i")
 }
 
 func ruleR05a(h *H) { ruleR05aInto(h, "R05a") }
@@ -642,8 +644,9 @@ func sameServer(a, b ssa.Value) bool {
 	return false
 }
 
-func ruleR05h(h *H) {
-	const rule = "R05h"
+func ruleR05h(h *H) { ruleR05hInto(h, "R05h") }
+
+func ruleR05hInto(h *H, rule string) {
 	h.Rule(rule, "K6", "the majority is computed from the length of the very collection that is iterated to send NewTerm (the set that is fenced and whose answers are counted)", 1)
 	fn := fencingQuorumFn(h, rule)
 	if fn == nil {
@@ -693,5 +696,50 @@ func ruleR05h(h *H) {
 		arg := ir.Canon(l.Call.Args[0])
 		h.Verdict(iterated[arg], rule, "majority base set in "+ir.FuncName(fn), h.pos(l), "len() of the collection that is iterated to send NewTerm",
 			"the majority is computed from "+ir.Describe(arg)+", which is not the collection iterated to send NewTerm: acknowledgements are counted over a different set than the one the majority refers to")
+	}
+}
+
+// ruleStatusSwapFresh (shared with C18): StatusResource.Swap(newStatus, version) succeeds
+// when `version` is current. The new status must therefore have been computed from the
+// snapshot that was loaded together with that version; a retry loop that only reloads
+// the version writes a status computed from an older snapshot over whatever changed in
+// between (terms of concurrent elections, the shard id generator).
+func ruleStatusSwapFresh(h *H, rule string) {
+	h.Rule(rule, "K6", "for every StatusResource.Swap(s, v): the LoadWithVersion calls that can supply v are exactly the ones whose status s is computed from", 1)
+	swap := ir.Callee{Pkg: "coordinator/resources", Recv: "StatusResource", Name: "Swap"}
+	load := ir.Callee{Pkg: "coordinator/resources", Recv: "StatusResource", Name: "LoadWithVersion"}
+	n := 0
+	for _, cs := range h.P.AllCalls(func(f *ssa.Function) bool { return strings.HasPrefix(ir.RelPkg(ir.PkgPathOf(f)), "coordinator") }, swap) {
+		n++
+		h.Fn(ir.FuncName(cs.Fn))
+		name := fmt.Sprintf("status swap #%d in %s", n, ir.FuncName(cs.Fn))
+		st, ver := argOf(cs.Call.Common(), 0), argOf(cs.Call.Common(), 1)
+		loadsOf := func(v ssa.Value, idx int) map[*ssa.Call]bool {
+			out := map[*ssa.Call]bool{}
+			ir.DependsOn(v, func(x ssa.Value) bool {
+				if ex, ok := x.(*ssa.Extract); ok && ex.Index == idx {
+					if c, ok := ex.Tuple.(*ssa.Call); ok && h.P.Matches(c.Common(), load) {
+						out[c] = true
+					}
+				}
+				return false
+			})
+			return out
+		}
+		vs, ss := loadsOf(ver, 1), loadsOf(st, 0)
+		if len(vs) == 0 {
+			h.OK(rule, name, h.pos(cs.Call), "the version is supplied by the caller")
+			continue
+		}
+		bad := ""
+		for c := range vs {
+			if !ss[c] {
+				bad = "the version can come from the LoadWithVersion at " + h.pos(c) + ", but the status that is written was not computed from the snapshot loaded there: after a failed attempt the stale status overwrites what changed in between (a concurrent election's term, the shard id generator)"
+			}
+		}
+		h.Verdict(bad == "", rule, name, h.pos(cs.Call), fmt.Sprintf("status and version come from the same %d load(s)", len(vs)), bad)
+	}
+	if n == 0 {
+		h.Anchor(rule, "calls of StatusResource.Swap in the coordinator")
 	}
 }
